@@ -222,7 +222,7 @@ theorem remove_tests_as_modelled :
 
 /-- inventory of EVERY place in backend.c, error_context.c, comm.c and call_out.c where the driver itself starts LPC code
     (file : function : call : what), in source order.  Modelled: connect (own recovery point - `mudlibConnect`), logon
-    (unprotected: an error unwinds to backend() - `logonHook`, `abandoned`), clean_up (recovery point of the sweep -
+    (safe_apply since the fix commit - `logonHook`), clean_up (recovery point of the sweep -
     `cleanupObject`), heart_beat (`hbLoop`), the master's error_handler (errors re-enter error_handler -
     `callMasterHandler`), process_input x2 of process_user_command (`inputStage`), net_dead (safe_apply - `netDeadHook`), the
     input_to callback (`inputToCommand`), write_prompt (`promptStage`), both call_out forms (per-entry recovery point - `sweepCallOuts`).  Not modelled
@@ -232,7 +232,7 @@ theorem remove_tests_as_modelled :
 theorem apply_sites_as_modelled :
     NV.Gen.C09.applySites =
       ["backend.c:mudlib_connect:safe_apply_master_ob:APPLY_CONNECT",
-       "backend.c:mudlib_logon:apply:APPLY_LOGON",
+       "backend.c:mudlib_logon:safe_apply:APPLY_LOGON",
        "backend.c:look_for_objects_to_swap:apply:APPLY_CLEAN_UP",
        "backend.c:call_heart_beat:call_function:ob->prog",
        "backend.c:preload_objects:apply_master_ob:APPLY_EPILOG",
@@ -289,7 +289,7 @@ theorem preload_as_modelled :
 
 /-- every source shape of the repaired code that the model mirrors is present (all_users guard, re-validation through
     the object, recovery point before the start-up steps, load-average clamp, connect() under its own recovery point,
-    pending events cleared when a record is freed) -/
-theorem guards_present : NV.Gen.C09.guardsPresent = [1, 1, 1, 1, 1, 1] := by decide
+    pending events cleared when a record is freed, logon() under its own recovery point) -/
+theorem guards_present : NV.Gen.C09.guardsPresent = [1, 1, 1, 1, 1, 1, 1] := by decide
 
 end NV.C09
